@@ -256,6 +256,8 @@ func Run(c *core.Ctx, pool *gjs.Pool) {
 	const per = 40
 	nb := (len(list) + per - 1) / per
 	jsExecs := make([][]*Exec, nb)
+	var disagreeMu sync.Mutex
+	var disagree []string
 	natExecs := make([][]*Exec, nb)
 	preload := filepath.Join(core.Root, "js", "sched.js")
 	c.ParMap(nb, func(bi int) {
@@ -307,9 +309,16 @@ func Run(c *core.Ctx, pool *gjs.Pool) {
 				// Node process with the default script must show the same observation
 				res := gjs.Node(out, 20*time.Second, preload, []string{"VERIF_SCRIPT={}"}, strconv.Itoa(n))
 				real := gjs.ClassifyNode(res)
+				// the stand-alone execution is a real execution too: it is validated like the others
+				evsR, endR := assemble(p, real, maxNC)
+				jsExecs[bi] = append(jsExecs[bi], &Exec{Prog: p, Script: scs[0], Events: evsR, End: endR, Raw: real.Raw})
 				if !real.Same(obsAll[n*len(scs)]) {
-					c.Infra(fmt.Errorf("runner.js and a stand-alone node process disagree on program %s:\n--- runner\n%s\n--- node\n%s", p.key(), obsAll[n*len(scs)].Raw, real.Raw))
-					return
+					// Decided after trace validation: if the specification rejects one of the two
+					// observations the verdict is a violation; if it accepts both, the runner is
+					// not faithful for this program and the run ends as an infrastructure problem.
+					disagreeMu.Lock()
+					disagree = append(disagree, fmt.Sprintf("runner.js and a stand-alone node process disagree on program %s:\n--- runner\n%s\n--- node\n%s", p.key(), obsAll[n*len(scs)].Raw, real.Raw))
+					disagreeMu.Unlock()
 				}
 				c.Add("standalone_node_crosschecks", 1)
 			}
@@ -413,6 +422,10 @@ func Run(c *core.Ctx, pool *gjs.Pool) {
 		sj, _ := json.Marshal(x.Script)
 		files["script.json"] = string(sj) + "\n"
 		c.Report(core.Case{Keys: classify(x.Prog), Summary: fmt.Sprintf("execution not allowed by Go channel semantics (GoChanTrace rejects it; the reference toolchain's executions of the same program are accepted): program %s, end=%s", k, x.End), Files: files})
+	}
+	if len(disagree) > 0 && len(reported) == 0 {
+		c.Infra(fmt.Errorf("%s", disagree[0]))
+		return
 	}
 	c.Phase("verdicts")
 	nImpl := c.Pick(150, 2500)
